@@ -15,7 +15,8 @@
       a malformed key (wrong length / low-order point) raises ValueError: the circuit is removed;
     * the hop is appended BEFORE the candidate list is decrypted; if that fails the handler aborts with the hop
       appended and the retry cache still in place;
-    * the relay pairs a CREATED with its pending extend by the identifier alone (circuit id and sender are ignored).
+    * the relay pairs a CREATED with its pending extend by the identifier alone (circuit id and sender are ignored);
+      since fix f3c2d31 it refuses to pair when the outgoing circuit id it reserved is meanwhile in use at this node.
 -/
 import Ipv8.C08.GenCrypto
 
@@ -227,6 +228,9 @@ def onCreated [DecidableEq Tag] (C : Crypto Tag Sess Blob) (n : Node Sess) (cid 
     match n1.exits req.fromCid with
     | none => (n1, [])
     | some ex =>
+      -- the id reserved for the next hop was taken in the meantime (it travels in a plaintext CREATE): do not pair
+      if (n1.circuits req.toCid).isSome || (n1.relays req.toCid).isSome || (n1.exits req.toCid).isSome then (n1, [])
+      else
       ({ n1 with exits := upd n1.exits req.fromCid none,
                  relays := upd (upd n1.relays req.toCid (some ⟨req.fromCid, req.peer, ex.keys, false⟩))
                                req.fromCid (some ⟨req.toCid, req.toPeer, ex.keys, true⟩) },
